@@ -52,6 +52,9 @@ def main():
             cR, cZ = 1.5 + float(rng.uniform(-0.02, 0.02)), float(rng.uniform(-0.02, 0.02))
             # the first blob sits nearest the domain centre (primary O-point)
             cen = [[cR, cZ, 1.0, wq], [cR + sep * np.cos(ang), cZ + sep * np.sin(ang), 1.0, wq]]
+            # "all input resolutions above a minimum": at least five points per blob width (h <= 0.2 w)
+            nR = int(rng.choice([65, 97, 129]))
+            nZ = int(rng.choice([65, 97]))
             e_ = {"topo": "custom", "centres": cen, "s": float(rng.choice([-1, 1])), "nR": nR, "nZ": nZ, "Rlim": [0.6, 2.4], "Zlim": [-0.9, 0.9], "angle_deg": float(np.degrees(ang))}
         else:
             e_ = None
